@@ -17,7 +17,7 @@ from . import common
 
 ID = 'C10'
 LEVEL = 'fault_enumeration'
-RUNS = {'quick': 1500, 'thorough': 40000}
+RUNS = {'quick': 4000, 'thorough': 60000}
 SIM_TIME_UNIT = 'updates'
 RULE = ('seeded generation of (online specification incl. sub-specs and pastified ones, pre-history of 0..10 updates with clock '
         'faults, post sequence of 1..8 updates); inside each run reset() is injected at every position 0..m of the pre-history '
@@ -28,7 +28,7 @@ ASSUMPTIONS = ['the oracle is a freshly constructed real monitor fed only the po
 REAL = common.REAL_ALL
 STUBS = common.STUBS_ALL
 PROBES = ['reset_before_first_update', 'double_reset', 'second_reset_after_more_updates', 'with_subspecs', 'pastified', 'dense_time', 'counter_nonzero_before_reset',
-          'reset_matters', 'poisoned_update_did_not_raise', 'only_failed_updates_before_reset', 'reset_before_pastify']
+          'reset_matters', 'poisoned_update_did_not_raise', 'only_failed_updates_before_reset', 'reset_before_pastify', 'failed_update_right_after_a_reset']
 INTERLEAVING_MEASURE = 'distinct (time domain, reset position, pre-history length, double-reset) tuples'
 
 
@@ -48,6 +48,12 @@ def gen(rng, tier):
         if sg.vars_of(ast) and any(x[0] in sg.TEMPORAL for x in sg.walk(ast)):
             break
     vars_ = [v for v in vars_]
+    if rng.random() < 0.25:
+        # a predicate whose left operand is a unary arithmetic operation over a sensor and whose right operand is a constant,
+        # evaluated first: with a poisoned sample the update fails BEFORE the constant is reached
+        un = [o for o in ('abs', 'neg', 'exp') if o in ops] or ['abs']
+        first = ['pred', rng.choice(['>=', '<=']), [rng.choice(un), ['var', rng.choice(vars_)]], ['const', rng.choice(sg.LATTICE)]]
+        ast = [rng.choice(['and', 'or', 'implies']), first, ast]
     pastify = any(x[0] in sg.FUTURE_OPS for x in sg.walk(ast)) or rng.random() < 0.1
     modular = None
     if rng.random() < 0.35:
@@ -79,11 +85,13 @@ def gen(rng, tier):
         pre = [[t1[i], dict((v, data[v][i]) for v in vars_)] for i in range(m)]
         post = [[t2[i], dict((v, data[v][m + i]) for v in vars_)] for i in range(npost)]
     # a middle episode: pre, reset, mid, reset, post (state must not leak across two resets either)
-    mid_len = rng.randint(1, 4) if rng.random() < 0.5 else 0
+    mid_len = rng.randint(1, 4) if rng.random() < 0.6 else 0
     # a poisoned update in the pre-history: one sensor delivers None, update() raises half-way, the application catches the
     # exception (and later resets the monitor)
-    poison = {'at': rng.choice([0, 0, rng.randrange(m)]), 'var': rng.choice(sg.vars_of(ast))} if m and rng.random() < 0.3 else None
-    return {'early': rng.random() < 0.4, 'poison': poison, 'dense': dense, 'cls': cls, 'vars': vars_, 'ast': ast, 'modular': modular, 'pastify': pastify, 'pre': pre,
+    pv = ast[1][2][1][1] if (ast[0] in ('and', 'or', 'implies') and ast[1][0] == 'pred' and ast[1][2][0] in ('abs', 'neg', 'exp')
+                             and ast[1][2][1][0] == 'var' and rng.random() < 0.7) else rng.choice(sg.vars_of(ast))
+    poison = {'at': (rng.choice([0, 0, rng.randrange(m)]) if m else 0), 'var': pv} if rng.random() < 0.45 else None
+    return {'early': rng.random() < 0.4, 'poison': poison, 'poison_mid': rng.random() < 0.5, 'dense': dense, 'cls': cls, 'vars': vars_, 'ast': ast, 'modular': modular, 'pastify': pastify, 'pre': pre,
             'post': post, 'double_at': rng.randint(0, m), 'text': None, 'spell_seed': rng.randrange(1 << 30), 'mid_len': mid_len}
 
 
@@ -235,7 +243,18 @@ def run(sc):
                     r.violate('counter-restarts-at-0', position=p, resets=times, counter=mon.sampling_violation_counter,
                               spec=desc, pre=pre[:p])
                     return r
-            if use_mid:
+            if use_mid and sc.get('poison') and sc.get('poison_mid'):
+                # the middle episode starts with an update that raises half-way; nothing is claimed until the next reset
+                r.probes['second_reset_after_more_updates'] += 1
+                r.probes['failed_update_right_after_a_reset'] += 1
+                for i, u in enumerate(mid):
+                    try:
+                        step(mon, sc, poisoned(sc, u) if i == 0 else u)
+                    except M.ApiCrash:
+                        r.faults['update_raised_midway' if i == 0 else 'update_raised_after_poison'] += 1
+                M.api('reset', mon.reset)
+                r.faults['reset'] += 1
+            elif use_mid:
                 r.probes['second_reset_after_more_updates'] += 1
                 for i, u in enumerate(mid):
                     o = step(mon, sc, u)
